@@ -20,14 +20,20 @@ class Tree:
       root/                   asset root handed to Assets::fromDirectory
         static/ ...           static root          static-evil/, staticX/      sibling-prefix directories
         templates/ ...        template root        templates_old/
+      (root/ and ext/ live under case/site/, so a case-variant ANCESTOR case/SITE/... can exist next to them)
       ext/ ...                EXTERNAL_DIR of the embedded registry            ext-evil/
+      next to every root: directories whose path is "nearly" the root's (Tree.near): case variants of the last
+      component (STATIC, Static), of an ancestor (SITE/root/static, site/ROOT/static), suffix siblings (xstatic,
+      my-static), trailing dot / space (static., "static "), a Unicode lookalike; each holds token files and is
+      reachable through file and directory symlinks placed inside the root
     """
 
     def __init__(self, case_dir, rng):
         self.case = case_dir
         self.rng = rng
-        self.root = os.path.join(case_dir, "root")
-        self.ext = os.path.join(case_dir, "ext")
+        self.root = os.path.join(case_dir, "site", "root")
+        self.ext = os.path.join(case_dir, "site", "ext")
+        self.near = {}          # absolute path of an outside directory whose path is "nearly" a root -> kind
         self.secret = os.path.join(case_dir, "secret", "secret.txt")
         self.by_id = {}         # (len, fnv) -> absolute path of the file whose content that is
         self.content = {}       # absolute path -> bytes
@@ -126,6 +132,41 @@ class Tree:
         if kind == "templates":
             L(j("link_static"), os.path.join("..", "static"))
 
+    def _near_dirs(self, kind, base):
+        """outside directories whose path is 'nearly' the root's path, each with token files, and symlinks inside the root that lead into them"""
+        parent, name = os.path.dirname(base), os.path.basename(base)
+        ext = ".html" if kind == "templates" else ".txt"
+        site = os.path.join(self.case, "site")
+        rel_from_site = os.path.relpath(base, site)
+        look = name.replace("a", "\u0430", 1) if "a" in name else name.replace("e", "\u0435", 1)     # Cyrillic lookalike letter
+        near = [("case-variant", os.path.join(parent, name.upper())),
+                ("case-variant", os.path.join(parent, name.capitalize())),
+                ("case-variant-ancestor", os.path.join(self.case, "SITE", rel_from_site)),
+                ("suffix-sibling", os.path.join(parent, "x" + name)),
+                ("suffix-sibling", os.path.join(parent, "my-" + name)),
+                ("trailing-dot", os.path.join(parent, name + ".")),
+                ("trailing-space", os.path.join(parent, name + " ")),
+                ("lookalike", os.path.join(parent, look))]
+        if kind != "ext":
+            near.append(("case-variant-ancestor", os.path.join(site, "ROOT", name)))
+        for i, (nk, d) in enumerate(near):
+            self.near[d] = nk
+            for f in ("a" + ext, "a.txt", "x.txt", "index.html", os.path.join("css", "site.css")):
+                if not os.path.exists(os.path.join(d, f)):
+                    self._file(os.path.join(d, f), extra=b"near-root:" + nk.encode())
+            tag = "near_%s_%d" % (nk.replace("-", "_"), i)
+            self._link(os.path.join(base, tag), os.path.relpath(d, base))                              # directory symlink, relative
+            self._link(os.path.join(base, tag + "_abs"), d)                                            # directory symlink, absolute
+            self._link(os.path.join(base, tag + "_file" + ext), os.path.join(os.path.relpath(d, base), "a" + ext))   # file symlink
+            self._link(os.path.join(base, "css", tag + ".css"), os.path.join(os.path.relpath(d, os.path.join(base, "css")), "css", "site.css"))
+
+    def near_kind(self, real):
+        """kind of 'nearly the root' directory that a real path lies in, or None"""
+        for d, nk in self.near.items():
+            if real == d or real.startswith(d + os.sep):
+                return nk
+        return None
+
     def build(self):
         os.makedirs(os.path.dirname(self.secret))
         with open(self.secret, "wb") as fh:
@@ -141,7 +182,9 @@ class Tree:
         self._populate(self.ext, "ext", "ext-evil")
         for sib in ("static-evil", "staticX", "templates_old"):
             self._file(os.path.join(self.root, sib, "x.txt")); self._file(os.path.join(self.root, sib, "a.txt")); self._file(os.path.join(self.root, sib, "a.html"))
-        self._file(os.path.join(self.case, "ext-evil", "x.txt")); self._file(os.path.join(self.case, "ext-evil", "a.txt"))
+        self._file(os.path.join(os.path.dirname(self.ext), "ext-evil", "x.txt")); self._file(os.path.join(os.path.dirname(self.ext), "ext-evil", "a.txt"))
+        for kind, base in (("static", st), ("templates", tp), ("ext", self.ext)):
+            self._near_dirs(kind, base)
         self._file(os.path.join(self.root, "top.txt"))
         self.roots = {"static": st, "templates": tp, "ext": self.ext}
         for k, base in self.roots.items():
@@ -188,6 +231,10 @@ class Tree:
         if not _s.S_ISREG(st.st_mode):
             return "non-regular-returned", route, "identified path %s is not a regular file" % path
         if not (real == rbase or real.startswith(rbase + os.sep)):
+            nk = self.near_kind(real)
+            if nk:
+                return "near-root-%s-returned" % nk, route, "content of %s, which lies in a directory that only resembles %s (%s)" % (
+                    os.path.relpath(real, self.case), os.path.relpath(rbase, self.case), nk)
             return "outside-root-returned", route, "content of %s, which lies outside %s" % (os.path.relpath(real, self.case), os.path.relpath(rbase, self.case))
         return None
 
